@@ -15,7 +15,7 @@ class BallCountHandler(BallDeviceStateHandler):
     """Handles the ball count in the device."""
 
     __slots__ = ["_is_counting", "_count_valid", "_revalidate", "_eject_started", "_eject_ended", "_has_balls",
-                 "_ball_count", "_ball_count_changed_futures", "counter"]
+                 "_ball_count", "_ball_count_changed_futures", "counter", "_reserved_slots"]
 
     def __init__(self, ball_device):
         """Initialize ball count handler."""
@@ -29,6 +29,8 @@ class BallCountHandler(BallDeviceStateHandler):
         self._has_balls = asyncio.Event()
         self._ball_count = 0
         self._ball_count_changed_futures = []
+        # slots which are blocked for sources which are about to eject to us (but their ball did not leave yet)
+        self._reserved_slots = 0
         self.counter = None  # type: Optional[PhysicalBallCounter]
 
     def wait_for_ball_count_changed(self):
@@ -161,7 +163,7 @@ class BallCountHandler(BallDeviceStateHandler):
             if not self.counter:
                 raise asyncio.CancelledError
             free_space = self.counter.capacity - self._ball_count
-            incoming_balls = self.ball_device.incoming_balls_handler.get_num_incoming_balls()
+            incoming_balls = self.ball_device.incoming_balls_handler.get_num_incoming_balls() + self._reserved_slots
             if free_space <= incoming_balls:
                 self.debug_log(
                     "Not ready to receive from %s. Not enough space. "
@@ -198,7 +200,19 @@ class BallCountHandler(BallDeviceStateHandler):
             self.debug_log("Ready to receive from %s. Free space %s (Capacity: %s, Balls: %s), incoming_balls: %s",
                            source, free_space, self.counter.capacity, self._ball_count,
                            incoming_balls)
+            # block one slot for this source. otherwise, another source which waits for us might also start to eject
+            # into the same slot. the source has to release it once its ball left (and became an incoming ball).
+            self._reserved_slots += 1
             return True
+
+    def release_reserved_slot(self):
+        """Release a slot which was reserved in wait_for_ready_to_receive."""
+        self._reserved_slots -= 1
+        # let other sources which wait for free space check again
+        for future in self._ball_count_changed_futures:
+            if not future.done():
+                future.set_result(self._ball_count)
+        self._ball_count_changed_futures = []
 
     async def start_eject(self, already_left=False) -> EjectTracker:
         """Start eject."""
